@@ -575,3 +575,13 @@ def check_conv_native(nm, m, r):
 
 def run_c07_full(prop, mir, log, tier):
     raise Unsupported("C07 layer 2/3 not wired yet")
+
+
+def replay_file(path):
+    d = json.load(open(path))
+
+    def log(x):
+        print(x)
+    r = replay_c19(d["query"], d["model"], log)
+    print("reproduced: %s" % (r is True))
+    return 1 if r is True else 0
